@@ -326,7 +326,33 @@ def probes():
   rm(d, ignore_errors=True)
   out['restore_with_target'] = restore_with_target(d)
   rm(d, ignore_errors=True)
+  os.makedirs(d, exist_ok=True)
+  out['mixed_backends'] = mixed_backends(d)
+  rm(d, ignore_errors=True)
   return out
+
+
+def mixed_backends(root):
+  """the back-end changes in the middle of a run (one directory and prefix then holds Orbax directories and msgpack files): every save still
+  completes, retention keeps exactly the `keep` newest steps whatever kind the removed checkpoint is, and every retained step restores"""
+  bad = []
+  for name, kinds in (('orbax_then_legacy', [True, True, False, False]), ('legacy_then_orbax', [False, False, True, True]), ('alternating', [True, False, True, False])):
+    d = os.path.join(root, name)
+    os.makedirs(d)
+    try:
+      for step, orbax in enumerate(kinds, start=1):
+        fconfig.update('flax_use_orbax_checkpointing', orbax)
+        C.save_checkpoint(d, {'v': np.array([100 + step])}, step, keep=2)
+        steps = sorted(int(s) for s in C.available_steps(d))
+        want = [s for s in (step - 1, step) if s >= 1]
+        lp = C.latest_checkpoint(d)
+        got = {s: int(np.asarray(C.restore_checkpoint(d, None, step=s)['v'])[0]) for s in steps}
+        if steps != want or lp is None or not lp.endswith('checkpoint_%d' % step) or got != {s: 100 + s for s in want}:
+          bad.append({'history': name, 'after_step': step, 'steps': steps, 'expected_steps': want, 'latest': lp, 'restored': got})
+          break
+    except BaseException as e:  # pylint: disable=broad-except
+      bad.append({'history': name, 'exc': type(e).__name__, 'msg': str(e)[:200]})
+  return bad
 
 
 def restore_with_target(root):
